@@ -79,7 +79,7 @@ if meta["confirmed"]:
             t0 = time.time()
             for attempt in range(2):
                 r = subprocess.run("./check %s --tier quick" % cid, cwd="/verif", shell=True, stdout=subprocess.PIPE,
-                                   stderr=subprocess.PIPE, text=True, timeout=3600, env=dict(os.environ, VERIF_REPO=WT))
+                                   stderr=subprocess.PIPE, text=True, timeout=3600, env=dict(os.environ, VERIF_REPO=WT, VERIF_MODEL_EXE="/verif/.build/scale_model-frozen" if os.path.exists("/verif/.build/scale_model-frozen") else ""))
                 vio = [l for l in r.stdout.split("\n") if l.startswith("VIOLATION")]
                 # the harness under /verif may be mid-edit while this runs: a build failure that is
                 # not caused by the change under test disappears on a second attempt
